@@ -215,11 +215,12 @@ Definition encode_frame (body : list N) : list N :=
 (* ------------------------------------------------------------------------------------------ *)
 (* tokio_util::codec::FramedRead<_, LSCodec> as a function of the sequence of reads *)
 
-(* What `serde_json::from_slice(content)` makes of a body.  In the pinned io.rs the target type is
-   inferred from the return type of decode as Option<Message>, so the JSON text `null` (with
-   optional JSON whitespace around it) deserialises to None: decode returns Ok(None) although the
-   buffer has been advanced past the frame (JNull).  Deserialising to Message (the repaired code)
-   leaves two outcomes only. *)
+(* What `serde_json::from_slice(content)` makes of a body.  decode deserialises to Message, so a
+   body is a message or it is not (JMsg / JBad; `run_chunks` below).
+   Until /repo commit e5c7771 the target type was inferred from decode's return type as
+   Option<Message>: the JSON text `null` deserialised to None and decode returned Ok(None) although
+   the buffer had been advanced past the frame.  That outcome is kept as JNull (`run_chunks_pinned`)
+   for the regression witness in Proofs/CodecProofs.v; it cannot occur in the repaired code. *)
 Inductive jclass : Type :=
 | JMsg       (* Ok(Some(message)) *)
 | JNull      (* Ok(None), frame consumed *)
@@ -280,11 +281,11 @@ Fixpoint feed_chunks (jc : list N -> jclass) (buf : list N) (chunks : list (list
       end
   end.
 
-(* the pinned code: three-valued classification of bodies *)
+(* general form, including the pre-e5c7771 outcome JNull *)
 Definition run_chunks_pinned (jc : list N -> jclass) (chunks : list (list N)) : list event :=
   feed_chunks jc [] chunks.
 
-(* the codec whose decode deserialises to Message: a body is a message or it is not *)
+(* the codec as it is: a body is a message or it is not *)
 Definition jc_of_bool (json_ok : list N -> bool) (body : list N) : jclass :=
   if json_ok body then JMsg else JBad.
 
